@@ -175,7 +175,7 @@ def install_open_hook(st):
         cell = st.ghost.get("cells", {}).get(id(pathobj))
         if cell is None:
             raise Unsupported("open() of a path without ghost file cell")
-        return I.open_binary(cell, mode)
+        return I.open_binary(I, cell, mode)
     st.ghost["open_hook"] = hook
 
 
